@@ -9,7 +9,7 @@ from vt.core import L
 from vt.ref import tlv
 
 USES = ["view_settings", "view_settings_by_index", "view_raw", "view_raw_by_index", "decoder_rsa", "decoder_aes", "decoder_rand", "client",
-        "profile", "transform_get", "recover_get", "transform_post", "mutate"]
+        "profile", "transform_get", "recover_get", "transform_post", "mutate", "session_rsa"]
 _G = {}
 
 
@@ -63,15 +63,29 @@ def do_use(u, cfg, env):
     if u.startswith("view_"):
         name = {"view_settings": "settings", "view_settings_by_index": "settings_by_index", "view_raw": "raw_settings", "view_raw_by_index": "raw_settings_by_index"}[u]
         return tuple((norm(k), norm(v)) for k, v in getattr(cfg, name).items())
+    if u == "session_rsa":
+        # a decoder that only has the private key decodes a recorded check-in and the task that follows it
+        rec = env["session"].get(env["which"])
+        if rec is None:
+            return ("n/a",)
+        d = c2.C2Http(cfg, rsa_private_key=env["key"])
+        y1 = [(int(p.bid), bytes(p.aes_rand)) for p in d.iter_recover_http(rec[0])]
+        y2 = [(int(p.command), bytes(p.data)) for p in d.iter_recover_http(rec[1])]
+        return norm((y1, y2))
     if u.startswith("decoder_") or u in ("transform_get", "recover_get", "transform_post"):
         kw = {"decoder_rsa": dict(rsa_private_key=env["key"]), "decoder_rand": dict(aes_rand=b"R" * 16)}.get(u, dict(aes_key=b"A" * 16, hmac_key=b"H" * 16))
+        if u == "decoder_rsa" and env["which"].startswith("sample"):
+            kw = dict(aes_rand=b"S" * 16)  # no private key exists for a real sample's public key
         d = c2.C2Http(cfg, **kw)
         if u == "transform_get":
             random.seed(5)
             r = d.transform_get.transform(c2.C2Data(metadata=b"\x01" * 20))
             return norm((r.uri, sorted(r.params.items()), sorted(r.headers.items()), r.body))
         if u == "recover_get":
-            r = d.transform_get.recover(env["get_request"][env["which"]], **env["base_kw"])
+            bk = dict(env["base_kw"])
+            if bk and env["which"].startswith("sample"):
+                bk = {"base_uri": env["sample_base"]}
+            r = d.transform_get.recover(env["get_request"][env["which"]], **bk)
             return norm(tuple(r))
         if u == "transform_post":
             random.seed(6)
@@ -136,6 +150,26 @@ def make_env():
         random.seed(5)
         env["get_request"][nm] = d.transform_get.transform(c2.C2Data(metadata=b"\x01" * 20), request=c2.HttpRequest(method=b"GET", uri=b"/get", params={}, headers={}, body=b""))
     env["base_kw"] = {"base_uri": b"/get"} if "base_uri" in inspect.signature(c2.HttpDataTransform.recover).parameters else {}
+    # recorded session per configuration: a check-in of the library's own client and a task response for it
+    import struct
+
+    from dissect.cobaltstrike import client as client_mod
+
+    env["session"] = {}
+    for nm, blk in blocks.items():
+        try:
+            cfgx = beacon.BeaconConfig(blk)
+            cl = client_mod.HttpBeaconClient()
+            random.seed(9)
+            cl.run(cfgx, dry_run=True, beacon_id=4, user="u", computer="c", process="p", internal_ip="10.0.0.1", arch="x64", pid=1000)
+            req = cl.c2http.transform_get.transform(c2.C2Data(metadata=c2.encrypt_metadata(cl.metadata, key.publickey())), request=cl._initial_get_request())
+            data = b"whoami"
+            pkt = struct.pack(">IIII", 1700000000, 8 + len(data), 2, len(data)) + data
+            enc = c2.encrypt_packet(pkt, cl.aes_key, cl.hmac_key)
+            body = cl.c2http.transform_response.transform(c2.C2Data(output=bytes(enc.ciphertext) + bytes(enc.signature))).body
+            env["session"][nm] = (req, c2.HttpResponse(status=200, headers={}, reason=b"OK", body=body))
+        except Exception as e:  # a configuration for which no session can be recorded simply has no such use
+            env.setdefault("session_errors", {})[nm] = repr(e)
     return env
 
 
@@ -209,7 +243,16 @@ def run(ctx):
                 data = zf.read(p.stem, pwd=b"dissect.cobaltstrike")
             from dissect.cobaltstrike import beacon
 
-            _G["env"]["blocks"]["sample_37882262"] = bytes(beacon.BeaconConfig.from_bytes(data).config_block)
+            blk = bytes(beacon.BeaconConfig.from_bytes(data).config_block)
+            _G["env"]["blocks"]["sample_37882262"] = blk
+            from dissect.cobaltstrike import c2
+
+            dd = c2.C2Http(beacon.BeaconConfig(blk), aes_key=b"A" * 16, hmac_key=b"H" * 16)
+            random.seed(5)
+            cfg_s = beacon.BeaconConfig(blk)
+            _G["env"]["get_request"]["sample_37882262"] = dd.transform_get.transform(
+                c2.C2Data(metadata=b"\x01" * 20), request=c2.HttpRequest(method=b"GET", uri=cfg_s.uris[0].encode(), params={}, headers={}, body=b""))
+            _G["env"]["sample_base"] = cfg_s.uris[0].encode()
         except Exception as e:
             ctx.notes["sample_error"] = repr(e)
     with mp.get_context("fork").Pool(14) as pool:
